@@ -13,12 +13,15 @@ THEOREM_FILE = "Props/C20.v"
 HARNESS_ARGS = ["sim"]
 PER_SHARD = 4
 LEVEL_TEXT = ("Coq theorems about the model of the daemon's querier-side state (cache buckets, subtype map, timer heap, "
-              "retransmissions): an iteration after every TTL has passed leaves the five record counters at 0 under any "
-              "calls; the timers left are exactly those not yet due plus the interface check; if the code's acceptance rule "
-              "never stored a record that no active search needed on arrival, it behaved exactly as the need rule and the "
-              "cache part of chk_C20 holds; the literal statements (subtype map, timers, bounded-by-need) are refuted on the "
-              "model by computed witnesses that replay on the real daemon; the model predicts get_metrics exactly on the "
-              "real daemon in the simulated world and chk_C20 runs as monitor on the implementation's samples")
+              "retransmissions) over all histories: COUNTING BOUND - under either acceptance rule every record counter that "
+              "get_metrics reports is at most the number of logged deliveries of that kind whose TTL had not run out at the "
+              "previous iteration (under the need rule the log holds exactly the deliveries an open browse / resolver needed "
+              "on arrival; under the code's rule every delivery: traffic x TTL); an iteration after every TTL has passed leaves "
+              "the five record counters at 0; timer heap: entries leave only by being popped and every entry whose time has "
+              "come is popped, an idle iteration pushes nothing; if the code's rule never stored an unneeded record it behaved "
+              "exactly as the need rule; the literal statements (subtype map, timers proportional to need, bounded-by-need of "
+              "the code's rule) are refuted on the model by computed witnesses that replay on the real daemon; the model "
+              "predicts get_metrics exactly on the real daemon in the simulated world and chk_C20 runs as monitor")
 TECHNIQUE = ("machine-checked proof in Coq (invariants of the cache/timer model over arbitrary histories, refutations by "
              "computed witnesses) + model/implementation correspondence on get_metrics of the simulated daemon")
 LEVELS = "K6 (real ServiceDaemon thread under verif-hooks; observation = get_metrics samples over virtual time)"
@@ -39,11 +42,11 @@ TRUSTED = [
     "what get_metrics does not report (pending_resolves / resolved sets, empty map keys) is modelled but not observed",
 ]
 PARTIAL = ("no registrations (registry timers / probes are C07/C12), no verify(), static interface table, event channels "
-           "never full; need-based bound: proved in the form 'no unneeded record stored => code run = need run => cache "
-           "counters within need' plus the step lemma that the need rule stores nothing unneeded; a counting bound of the "
-           "need run by the number of needed deliveries within TTL is not proved; timers: exact frame of a quiet iteration "
-           "proved, the need-proportional bound is refuted (finding), a traffic x TTL bound is not proved; pending_resolves / "
-           "resolved / empty map keys are modelled (C20_hidden_growth_model) but not observable through get_metrics")
+           "never full; the counting bound is proved for the five record counters (not for the subtype map, which is refuted); "
+           "timers: the shape of the heap after every iteration and the idle-iteration frame are proved, the need-proportional "
+           "count bound is refuted (finding), a count bound by deliveries within TTL + searches is not proved (flush and "
+           "refresh-mark pushes need a per-record accounting); pending_resolves / resolved / empty map keys are modelled "
+           "(C20_hidden_growth_model) but not observable through get_metrics")
 
 T0 = L.T0
 TYPES = ["_http._tcp.local.", "_ipp._tcp.local.", "_x._udp.local."]
